@@ -243,6 +243,15 @@ def selftest():
                     cases += 1
                     if got != want:
                         bad.append(("fmt", fmt, s, got, want))
+            import urllib.parse as up
+            ualpha = [0x25, 0x34, 0x31, 0x67, 0x46, 0x61, 0xe9, 0x2f]
+            for n in range(0, 5):
+                for t in itertools.product(ualpha, repeat=n):
+                    d = bytes(t)
+                    got = bytes(realize(up.unquote_to_bytes(SymbolicBytes(list(d)))))
+                    cases += 1
+                    if got != _up_unquote_to_bytes_orig(d):
+                        bad.append(("unquote", d, got))
             for v in range(256):
                 for cont in (b"0123456789abcdefABCDEF", b" \t", b"\0\r\n"):
                     got = v in _IntInBytes(cont)
@@ -250,6 +259,41 @@ def selftest():
                     if got != (v in cont):
                         bad.append(("in", v, cont))
     return cases, bad
+
+
+# --- urllib.parse.unquote_to_bytes (stdlib looks the two hex digits up in a dict keyed by bytes: realises) -------
+import urllib.parse as _up  # noqa: E402
+
+
+def _unquote_to_bytes(string):
+    with NoTracing():
+        symbolic = isinstance(string, (BytesLike, bl.AnySymbolicStr))
+    if not symbolic:
+        with NoTracing():
+            return _up_unquote_to_bytes_orig(deep_realize(string))
+    if isinstance(string, str):
+        string = string.encode("utf-8")
+    pts = string._ch_codepoints if isinstance(string, BytesLike) else list(string)
+    n = len(pts)
+    out = []
+    i = 0
+    while i < n:
+        c = pts[i]
+        if c == 37 and i + 2 < n + 0 and i + 2 <= n - 1:
+            h1 = _digit_val(pts[i + 1])
+            h2 = _digit_val(pts[i + 2])
+            if all([h1 >= 0, h2 >= 0]):
+                out.append(h1 * 16 + h2)
+                i += 3
+                continue
+        out.append(c)
+        i += 1
+    with NoTracing():
+        return bl.SymbolicBytes(out)
+
+
+_up_unquote_to_bytes_orig = _up.unquote_to_bytes
+core._PATCH_REGISTRATIONS[_up.unquote_to_bytes] = _unquote_to_bytes
 
 
 if __name__ == "__main__":
